@@ -453,6 +453,8 @@ pub struct Oracle {
     reexec_now: HashSet<NodeId>,
     /// every completed execution's result: node -> [(epoch, value)]
     pub value_history: HashMap<NodeId, Vec<(u64, i64)>>,
+    /// firewalls / projections whose backward projection is armed (model of the engine's pending mark)
+    pub bp_armed: HashSet<NodeId>,
     /// index of the history step being executed / of the first C01 flag
     pub cur_step: usize,
     pub first_c01_step: Option<usize>,
@@ -473,6 +475,7 @@ impl Oracle {
             stats: Stats::default(),
             reexec_now: HashSet::new(),
             value_history: HashMap::new(),
+            bp_armed: HashSet::new(),
             cur_step: 0,
             first_c01_step: None,
         }
@@ -523,6 +526,24 @@ impl Oracle {
     /// Judge the executor invocations recorded since the last call.
     /// `in_session`: records were produced while a session was open (refresh).
     pub fn judge(&mut self, recs: &[ExecRecord], in_session: bool, allow_dropped: bool) {
+        // arm backward projection (see the C03-F1 classifier below): every
+        // re-execution of a firewall / projection in this batch whose value
+        // differs from its previous execution
+        {
+            let mut last: HashMap<NodeId, i64> = HashMap::new();
+            for x in recs {
+                if matches!(x.node.kind, Kind::F | Kind::P) {
+                    if let ExecResult::Value(v) = &x.result {
+                        let prev = last.get(&x.node).copied().or_else(|| self.value_history.get(&x.node).and_then(|h| h.last().map(|e| e.1)));
+                        if prev.is_some_and(|p| p != *v) {
+                            self.bp_armed.insert(x.node);
+                        }
+                        last.insert(x.node, *v);
+                    }
+                }
+            }
+        }
+        let mut drained: HashSet<NodeId> = HashSet::new();
         // reference values for everything mentioned
         let mut mention: Vec<NodeId> = Vec::new();
         for r in recs {
@@ -600,7 +621,25 @@ impl Oracle {
                         // (backward projection is the only path that forces a
                         // projection to run, so every unjustified run of a
                         // projection is attributed to it)
-                        let aba = r.node.kind == Kind::P && preads.iter().any(|(d, _)| matches!(d.kind, Kind::F | Kind::P));
+                        // Narrowed: backward projection from a firewall/projection `d` is
+                        // armed when `d` is re-executed with a value different from its own
+                        // previous execution, and stays armed until it has run (which the
+                        // harness sees only through its effect). A projection that is re-run
+                        // unjustified while no firewall/projection it read is armed is not
+                        // this finding.
+                        let aba = r.node.kind == Kind::P && preads.iter().any(|(d, _)| matches!(d.kind, Kind::F | Kind::P) && self.bp_armed.contains(d));
+                        if !changed && aba {
+                            // which armed backward projection ran is known only if there is
+                            // exactly one candidate; otherwise all stay armed (no false alarm,
+                            // at the price of attributing more to the finding)
+                            let mut cand: Vec<NodeId> = preads.iter().map(|x| x.0).filter(|d| self.bp_armed.contains(d)).collect();
+                            cand.sort();
+                            cand.dedup();
+                            if cand.len() == 1 {
+                                drained.insert(cand[0]);
+                            }
+                        }
+
                         if !changed && aba {
                             self.flag("C03", "projection-rerun-on-ABA-firewall", Json::obj()
                                 .set("node", format!("{:?}", r.node))
@@ -625,6 +664,10 @@ impl Oracle {
                 self.value_history.entry(r.node).or_default().push((self.epoch, *v));
             }
             self.last_run.insert(r.node, (self.epoch, r.reads.clone()));
+        }
+        // a backward projection that has been seen to run is no longer pending
+        for d in drained {
+            self.bp_armed.remove(&d);
         }
     }
 
